@@ -1133,6 +1133,7 @@ fn litmus() -> Vec<(&'static str, SchedCase)> {
         ("insert; get || advance tti; insert", SchedCase { cfg: Cfg { tti: Some(SEC), ..base(None, None) }, init: vec![ins(0, 1), TOp::Sync], threads: vec![vec![ins(0, 1), get(0)], vec![TOp::Advance { ns: SEC }, ins(0, 1), get(0)]], preempt: vec![], first: 0, patience: 0 }),
         ("get || advance; get; advance (tti, reads recorded out of order)", SchedCase { cfg: Cfg { tti: Some(SEC), ..base(None, None) }, init: vec![ins(0, 1), TOp::Sync, TOp::Advance { ns: 100 * MS }], threads: vec![vec![get(0)], vec![TOp::Advance { ns: 500 * MS }, get(0), TOp::Advance { ns: 600 * MS }]], preempt: vec![], first: 0, patience: 0 }),
         ("get || advance; get; advance; sync; get (tti)", SchedCase { cfg: Cfg { tti: Some(SEC), ..base(None, None) }, init: vec![ins(0, 1), TOp::Sync, TOp::Advance { ns: 100 * MS }], threads: vec![vec![get(0)], vec![TOp::Advance { ns: 500 * MS }, get(0), TOp::Advance { ns: 600 * MS }, TOp::Sync, get(0)]], preempt: vec![], first: 0, patience: 0 }),
+        ("get(a) || advance; get(b); advance; sync; get(a) (tti, reads of two keys recorded out of order)", SchedCase { cfg: Cfg { tti: Some(SEC), ..base(None, None) }, init: vec![ins(0, 1), ins(1, 1), TOp::Sync, TOp::Advance { ns: 100 * MS }], threads: vec![vec![get(0)], vec![TOp::Advance { ns: 500 * MS }, get(1), TOp::Advance { ns: 600 * MS }, TOp::Sync, get(0), get(1)]], preempt: vec![], first: 0, patience: 0 }),
         ("insert; sync || 100 gets; insert (read queue beyond its flush point)", SchedCase { cfg: base(Some(2), None), init: vec![ins(0, 1), TOp::Sync], threads: vec![vec![ins(1, 1), TOp::Sync], vec![TOp::Gets { k: 0, n: 100 }, ins(0, 1)]], preempt: vec![], first: 0, patience: 0 }),
         ("insert; sync || 400 gets (read queue full)", SchedCase { cfg: base(Some(2), None), init: vec![ins(0, 1), TOp::Sync], threads: vec![vec![ins(1, 1), TOp::Sync], vec![TOp::Gets { k: 0, n: 400 }, get(0)]], preempt: vec![], first: 0, patience: 0 }),
         ("insert; sync || 400 inserts of fresh keys; update; get (write queue full)", SchedCase { cfg: base(None, None), init: vec![ins(0, 1), TOp::Sync], threads: vec![vec![ins(1, 1), TOp::Sync], vec![TOp::Fill { n: 400 }, ins(0, 2), get(0)]], preempt: vec![], first: 0, patience: 0 }),
